@@ -68,6 +68,7 @@ type lpWorld struct {
 	lastStimulus time.Time // last operation other than a clock advance
 	limitsFresh  bool      // the last operation ended with a pool maintenance cycle
 	tip          uint64
+	asyncChoices int
 	knownGap     map[int]bool // accounts whose pending list currently shows the recorded reorg gap
 }
 
@@ -257,6 +258,17 @@ func runLP(t *testing.T, pl any) *simcore.Result {
 	var hp *simcore.HarnessPanic
 	var w *lpWorld
 	logErrs.reset()
+	wall0 := time.Now()
+	defer func() {
+		if os.Getenv("POOLSIM_TIMING") != "" {
+			k := "wall-ms-serial"
+			if p.Knobs.Async {
+				k = "wall-ms-async"
+			}
+			res.Probes[k] += int(time.Since(wall0).Milliseconds())
+			res.Probes[k+"-runs"]++
+		}
+	}()
 	dl := simsched.Bubble(t, func() {
 		defer func() {
 			// a harness panic must leave the bubble as a value: goroutines of the
@@ -300,9 +312,13 @@ func runLP(t *testing.T, pl any) *simcore.Result {
 		res.LogHash = uint64(w.log)
 		res.StateFP = uint64(w.log)
 	}
-	res.NonTrivial = res.Probes["accepted"] >= 3 &&
-		res.Probes["replacement-accepted"]+res.Probes["pool-full"]+res.Probes["pending-truncated"]+res.Probes["queue-truncated"]+
-			res.Probes["lifetime-evicted"]+res.Probes["reorg-reinjected"]+res.Probes["demoted"]+res.Probes["included-removed"] >= 1
+	if w != nil && p.Knobs.Async {
+		res.NonTrivial = res.Probes["accepted"] >= 3 && w.asyncChoices >= 2
+	} else {
+		res.NonTrivial = res.Probes["accepted"] >= 3 &&
+			res.Probes["replacement-accepted"]+res.Probes["pool-full"]+res.Probes["pending-truncated"]+res.Probes["queue-truncated"]+
+				res.Probes["lifetime-evicted"]+res.Probes["reorg-reinjected"]+res.Probes["demoted"]+res.Probes["included-removed"] >= 1
+	}
 	if viol != nil {
 		res.Fail(viol)
 	}
@@ -317,7 +333,7 @@ func newLPWorld(p *LPPlan, res *simcore.Result) *lpWorld {
 		init[i] = acctModel{Nonce: a.Nonce, Balance: uint256.NewInt(a.Balance), Deleg: a.Deleg}
 	}
 	w := &lpWorld{p: p, res: res, start: time.Now(), log: simcore.NewHash(), tip: k.PriceLimit}
-	w.chain = newSimChain(accts, init, k.GasLimit, k.BaseFee*feeUnit)
+	w.chain = newSimChain(accts, init, k.GasLimit, k.BaseFee*feeUnit, 0)
 	w.signer = types.LatestSigner(w.chain.cfg)
 	cfg := legacypool.Config{
 		NoLocals: !k.Tracker, PriceLimit: k.PriceLimit, PriceBump: k.PriceBump,
@@ -419,9 +435,10 @@ type opInfo struct {
 	adopted   map[common.Hash]bool // head/reorg: transactions of the adopted blocks
 	newHead   *simBlock
 	advanced  time.Duration
-	maint     bool // ended with a maintenance cycle (runReorg)
+	maint     bool                    // ended with a maintenance cycle (runReorg)
 	dirty     map[common.Address]bool // add: senders of accepted transactions that replaced nothing
 	events    int
+	async     bool // a round of concurrently issued operations (asynchronous configuration)
 }
 
 func (w *lpWorld) apply(i int, op *LPOp, pre *before) *opInfo {
@@ -495,7 +512,10 @@ func (w *lpWorld) poolPicks(cont *content, include []int) []*types.Transaction {
 	return out
 }
 
-func (w *lpWorld) applyHead(op *LPOp, pre *before, info *opInfo) {
+// buildBranch builds the blocks of a head/reorg operation on top of the current
+// head (or of its Depth-th ancestor) and returns the heads to adopt and announce,
+// in order.
+func (w *lpWorld) buildBranch(op *LPOp, pre *before, info *opInfo) (steps []*simBlock) {
 	parent := pre.head
 	var abandoned []*types.Transaction
 	if op.Kind == "reorg" {
@@ -511,11 +531,12 @@ func (w *lpWorld) applyHead(op *LPOp, pre *before, info *opInfo) {
 		for j := len(chainTxs) - 1; j >= 0; j-- {
 			abandoned = append(abandoned, chainTxs[j]...)
 		}
-		info.abandoned = abandoned
+		info.abandoned = append(info.abandoned, abandoned...)
 	}
-	info.adopted = map[common.Hash]bool{}
+	if info.adopted == nil {
+		info.adopted = map[common.Hash]bool{}
+	}
 	cur := parent
-	sent := 0
 	for bi := range op.Blocks {
 		bs := &op.Blocks[bi]
 		var cands []*types.Transaction
@@ -558,25 +579,31 @@ func (w *lpWorld) applyHead(op *LPOp, pre *before, info *opInfo) {
 			info.adopted[tx.Hash()] = true
 		}
 		if op.Events == 1 && bi < len(op.Blocks)-1 {
-			w.chain.setHead(cur)
-			w.chain.announce()
-			synctest.Wait()
-			sent++
+			steps = append(steps, cur)
 		}
 	}
-	if cur == pre.head {
-		// nothing changed (reorg of depth 0 blocks at genesis without new blocks)
-		return
+	if cur != pre.head {
+		steps = append(steps, cur)
 	}
-	w.chain.setHead(cur)
-	w.chain.announce()
-	synctest.Wait()
+	return steps
+}
+
+func (w *lpWorld) applyHead(op *LPOp, pre *before, info *opInfo) {
+	steps := w.buildBranch(op, pre, info)
+	if len(steps) == 0 {
+		return // nothing changed (reorg at genesis without new blocks)
+	}
+	for _, b := range steps {
+		w.chain.setHead(b)
+		w.chain.announce()
+		synctest.Wait()
+	}
 	if err := w.tp.Sync(); err != nil {
 		simcore.Harnessf("txpool.Sync: %v", err)
 	}
-	info.newHead = cur
+	info.newHead = steps[len(steps)-1]
 	info.maint = true
-	info.events = sent + 1
+	info.events = len(steps)
 }
 
 func hashesOf(m map[common.Address][]*types.Transaction, accts []*account) string {
@@ -805,6 +832,9 @@ func (w *lpWorld) check(op *LPOp, info *opInfo, post *before) *simcore.Violation
 
 	if op == nil {
 		return nil
+	}
+	if info.async {
+		return w.checkRound(info, post, union, np, nq)
 	}
 	pre := info.pre
 
